@@ -29,7 +29,7 @@ def mfq(name, gens, exists=None, witness=False):
     d = {"NG": ng, "GENS": "{" + rows + "}", "EXISTS": "{" + ",".join(str(x) for x in exists) + "}"}
     return Query(name, harness="c07_myfileset.c", entry="h_myfileset", defines=d, units=[], unwind=14, object_bits=10, timeout=600, mem_gb=8,
                  leak_check=True, witness=witness,
-                 sample={"setfile_lines_per_generation": gens, "legend": "0 = a, 1 = b (relative), 2 = /d/c (absolute); repeats allowed",
+                 sample={"setfile_lines_per_generation": gens, "legend": "0 = a, 1 = b (relative), 2 = /d/c (absolute), 3 = /d/a (file a again, absolute); repeats allowed",
                          "files_existing_per_generation(bitmask)": exists, "symbolic": "whether each generation's setfile differs from the previous one in inode or in mtime or not at all"})
 
 
@@ -41,6 +41,7 @@ def myfileset_queries(quick):
         # a file named more than once (F12)
         ("aa_aab", [[0, 0], [0, 0, 1]], None), ("aa_a", [[0, 0], [0]], None), ("bab_bb", [[1, 0, 1], [1, 1]], None), ("a_aa", [[0], [0, 0]], None),
         ("aa_aa_a", [[0, 0], [0, 0], [0]], None), ("cc_cbc", [[2, 2], [2, 1, 2]], None),
+        ("aA_Aab", [[0, 3], [3, 0, 1]], None), ("A_a", [[3], [0]], None),            # 3 = "/d/a": the same file as line 0, spelled absolutely
     ]
     if not quick:
         tabs += [("abc_cba_b", [[0, 1, 2], [2, 1, 0], [1]], None), ("a_b_c", [[0], [1], [2]], None), ("aab_abb_ab", [[0, 0, 1], [0, 1, 1], [0, 1]], None),
